@@ -259,4 +259,76 @@ def responseG (forb : Nat → Bool) (init : St) (ops : List Op) : List (Option E
 def response (init : St) (ops : List Op) : List (Option Err) × Except Err (List Str) :=
   responseG forbiddenByte init ops
 
+/-! ### connection-level API: `write_headers` reached without a `RequestHandler`
+
+A raw `HTTPServer` request callback builds an `HTTPHeaders` object itself (`h[name] = value`, no validation;
+`h.add(name, value)`, token / field-value check) and calls
+`request.connection.write_headers(ResponseStartLine("HTTP/1.1", code, reason), h)` directly;
+`tornado.wsgi.WSGIContainer` does the same with the status string and header list returned by a WSGI
+application.  Here the reason is ANY str: nothing but the guard of `write_headers` looks at it. -/
+
+inductive HOp where
+  | set (name value : Str)
+  | add (name value : Str)
+  deriving Repr, Inhabited
+
+def hStep (h : Headers) : HOp → Headers × Option Err
+  | .set n v => (hSet h n v, none)
+  | .add n v => match hAdd h n v with
+    | .ok h' => (h', none)
+    | .error e => (h, some e)
+
+def hRun (h : Headers) : List HOp → Headers × List (Option Err)
+  | [] => (h, [])
+  | op :: rest =>
+    let r := hStep h op
+    let rr := hRun r.1 rest
+    (rr.1, r.2 :: rr.2)
+
+/-- `write_headers` with an unvalidated reason: `utf8("HTTP/1.1 %d %s" % (code, reason))` raises
+`UnicodeEncodeError` for a lone surrogate; otherwise as `writeHeadersG` (the start line is one of the
+guarded lines). -/
+def writeHeadersRawG (forb : Nat → Bool) (code : Int) (reason : Str) (h : Headers) : Except Err (List Str) :=
+  if reason.any isSurrogate then .error .unicodeEncode else writeHeadersG forb code reason h
+
+/-- a request callback: build the headers, then `connection.write_headers(...)` -/
+def rawResponseG (forb : Nat → Bool) (code : Int) (reason : Str) (hops : List HOp) :
+    List (Option Err) × Except Err (List Str) :=
+  let r := hRun [] hops
+  (r.2, writeHeadersRawG forb code reason r.1)
+
+def rawResponse (code : Int) (reason : Str) (hops : List HOp) : List (Option Err) × Except Err (List Str) :=
+  rawResponseG forbiddenByte code reason hops
+
+/-- ASCII part of `str.lower()`; `k.lower() == t` for an ASCII `t` without `k`/`i` followed by U+0307
+(`content-length`, `content-type`, `server`) holds iff `asciiLower k == t`: no non-ASCII code point lowers
+to an ASCII letter other than U+212A (`k`) and U+0130 (`i` + U+0307). -/
+def asciiLower (s : Str) : Str := s.map (fun c => if 65 ≤ c ∧ c ≤ 90 then c + 32 else c)
+
+/-- the header list `WSGIContainer.handle_request` passes to `HTTPHeaders.add` (empty body): the
+application's pairs, then `Content-Length: 0` and the default `Content-Type` (unless 304 / already given),
+then `Server`. -/
+def wsgiHeaders (server ctype : Str) (code : Int) (hs : List (Str × Str)) : List (Str × Str) :=
+  let has (t : String) : Bool := hs.any (fun p => asciiLower p.1 == ofAscii t)
+  hs ++ (if code = 304 then [] else
+          (if has "content-length" then [] else [(sContentLength, [48])]) ++
+          (if has "content-type" then [] else [(ofAscii "Content-Type", ctype)])) ++
+        (if has "server" then [] else [(ofAscii "Server", server)])
+
+/-- `for key, value in headers: header_obj.add(key, value)` — the first invalid pair raises -/
+def hAddAll (h : Headers) : List (Str × Str) → Except Err Headers
+  | [] => .ok h
+  | (n, v) :: rest => match hAdd h n v with
+    | .ok h' => hAddAll h' rest
+    | .error e => .error e
+
+def wsgiResponseG (forb : Nat → Bool) (server ctype : Str) (code : Int) (reason : Str) (hs : List (Str × Str)) :
+    Except Err (List Str) :=
+  match hAddAll [] (wsgiHeaders server ctype code hs) with
+  | .error e => .error e
+  | .ok h => writeHeadersRawG forb code reason h
+
+def wsgiResponse (server ctype : Str) (code : Int) (reason : Str) (hs : List (Str × Str)) : Except Err (List Str) :=
+  wsgiResponseG forbiddenByte server ctype code reason hs
+
 end TornadoModel.C07
